@@ -52,7 +52,7 @@ class C08(HistoryProperty):
     NONTRIVIAL_MEASURE = "history_with_overlap"
 
     def gen_case(self, rng, tier):
-        cfg = gen.swarm_cfg(rng, off=("shape_change",), on=("presets", "default_presets", "dataset", "derive", "withopts", "map", "dsclass", "fapp"))
+        cfg = gen.swarm_cfg(rng, off=("shape_change",), on=("presets", "default_presets", "dataset", "derive", "withopts", "map", "dsclass", "fapp"), base={"deep_default_section": rng.random() < 0.4})
         cfg["partial_section_preset"] = rng.random() < 0.8
         cfg["wrapping_datasets"] = rng.random() < 0.5  # dataset(<expression>, options=..., default_options=...)
         cfg["mutating_bodies"] = rng.random() < 0.4  # bodies that work in place on a section / list taken from the options
